@@ -303,6 +303,21 @@ def tbl4_decode_siblings(ctx):
         ctx.check('TBL-4', 'column::decode|%s' % v, v in d_ok,
                   'CodecOp::%s is decodable on the query path; compaction decode arm: %s'
                   % (v, 'ok' if v in d_ok else ('panics/todo!' if v in d_all else 'missing')), where_)
+    # every arm consumes the section stack: the codec may have decompressed section 0 in an
+    # earlier op (LZ4 / Pco are prepended by lz4_or_pco_encode), so an arm that reads the raw
+    # section parameter decodes compressed bytes
+    params = [p_['name'] for p_ in dec.get('params', [])]
+    raw = params[1] if len(params) > 1 else 'sections'
+    for v, arm in sorted(d_arms, key=lambda x: x[0]):
+        if v == 'PushDataSection' or astlib.arm_rejects(arm['body']):
+            continue
+        reads_raw = [n for n in find(arm['body'], 'index') if n['base'].get('k') == 'path' and n['base']['path'] == raw]
+        ctx.check('TBL-4', 'column::decode|%s|input-from-stack' % v, not reads_raw,
+                  'arm %s takes its input from %s' % (v, 'the raw `%s[..]` parameter: if the section was '
+                                                        'compressed (LZ4/Pco op earlier in the codec) it '
+                                                        'decodes compressed bytes and panics' % raw
+                                                     if reads_raw else 'the section stack'),
+                  'src/%s:%d' % (f, arm['l']))
     # compression x element type
     for comp, fn_name in (('LZ4', 'DataSection::lz4_decode'), ('Pco', 'DataSection::pco_decode')):
         cold = ast.fn(fn_name, f)
